@@ -602,6 +602,16 @@ func (m *Manager) rotateWAL() error {
 		newWAL.UpdateNextSequence(oldWAL.GetNextSequence())
 	}
 
+	// The old WAL no longer accepts entries. Write out what it still buffers
+	// before writers can reach the new WAL: otherwise a crash could keep
+	// entries of the new file while older, acknowledged ones are lost
+	if oldWAL != nil {
+		if err := oldWAL.Flush(); err != nil {
+			m.stats.TrackError("wal_flush_error")
+			fmt.Printf("Warning: error flushing old WAL: %v\n", err)
+		}
+	}
+
 	// Atomically update the WAL reference using atomic pointer operations
 	atomic.StorePointer((*unsafe.Pointer)(unsafe.Pointer(&m.wal)), unsafe.Pointer(newWAL))
 
